@@ -103,6 +103,15 @@ func takerScenarios(r *rng, n int) []scn {
 			all = append(all, paygateScn(genPaygate(r)))
 			continue
 		}
+		if i%7 == 1 {
+			chain := r.pickStr([]string{"btc", "lbtc"})
+			win, h0 := uint32(504), uint32(800000)
+			if chain == "lbtc" {
+				win, h0 = 60, 2000000
+			}
+			all = append(all, payloopScn(chain, h0, win-uint32(r.intn(6)), uint32(1+r.intn(2))))
+			continue
+		}
 		role := []string{"outSender", "inReceiver"}[r.intn(2)]
 		all = append(all, scn{role: role, steps: genScenario(r, role, r.intn(3) == 0)})
 	}
